@@ -4,6 +4,7 @@ import Csvq.Model.Lock
 import Csvq.Gen.FsProto
 import Csvq.Model.Retry
 import Csvq.Model.Release
+import Csvq.Model.TxLocks
 import Csvq.Gen.RetryLoop
 namespace Csvq.Drive
 open Csvq.Lock
@@ -164,6 +165,33 @@ def releaseSearch : String :=
       else "a failure is dropped"
     s!"violating-schedule: {f.1} of {k.1}; " ++ String.intercalate "; " lines ++ s!" => {verdict}"
 
+/-! ### search over the REGENERATED Transaction.Commit: an execution in which a call that can release held tables
+    runs before an encode step / a publication / an error return to the caller -/
+
+open Csvq.TxLocks in
+def evShow : Ev → String
+  | .errReturn => "Commit returns an error"
+  | .relErrReturn => "the releasing call fails: Commit returns its error"
+  | .encode => "P1 encodes a changed table (b) into its .temp file"
+  | .commitTable => "P1 publishes a changed table (rename) and gives it up"
+  | .releaseViews n => s!"P1 calls {n}: the handlers of the tables it only LOCKED (a: SELECT … FOR UPDATE / DML without a match) are closed, their .lock/.temp files removed -> P2 can take a (UPDATE a …) and commit"
+  | .releaseAll => "P1 calls ReleaseResources: everything still held is given up"
+  | .returnNil => "Commit returns"
+
+open Csvq.TxLocks in
+def txSearch : String :=
+  let cands := [0, 1, 2].flatMap (fun c => [0, 1, 2].flatMap (fun u => (List.range 16).map (fun k => (c, u, k))))
+  let fsOf := fun (k : Nat) => if k == 0 then [] else List.replicate (k - 1) false ++ [true]
+  let bad := cands.find? (fun x =>
+    let (c, u, k) := x
+    !scan false (runSegs Csvq.Gen.Retry.txCommit [c, u, c, u] (fsOf k)).1)
+  match bad with
+  | none => s!"no-violating-schedule among {cands.length} executions of the regenerated Transaction.Commit (created x updated tables x error return taken)"
+  | some (c, u, k) =>
+    let t := (runSegs Csvq.Gen.Retry.txCommit [c, u, c, u] (fsOf k)).1
+    s!"violating-schedule: P1 holds a (locked only) and {c} created / {u} updated tables; COMMIT starts; " ++
+      String.intercalate "; " (t.map evShow) ++ " => a table was released while the transaction was still committing (it stays released if the commit then fails)"
+
 def c09 (cmd : String) (args : List String) : String :=
   match cmd, args with
   | "trace", _roles :: evs =>
@@ -178,6 +206,7 @@ def c09 (cmd : String) (args : List String) : String :=
     String.intercalate "," r.2.reverse
   | "retrysearch", _ => retrySearch
   | "releasesearch", _ => releaseSearch
+  | "txsearch", _ => txSearch
   | "createrace", [cls] =>
     -- two processes CREATE the same table: H is held before (cls = before) / after (cls = after) it has created its
     -- `.lock` while S runs its whole constructor (and, if it succeeds, commits and releases); the regenerated
